@@ -557,13 +557,12 @@ class PWLCalibration(keras.layers.Layer):
     Returns:
       List of assertion ops in graph mode or immediately asserts in eager mode.
     """
-    # Assert by computing outputs for keypoints and testing them against
-    # constraints.
-    test_inputs = tf.constant(
-        value=self.input_keypoints,
-        dtype=self.dtype,
-        shape=[len(self.input_keypoints), 1])
-    outputs = self.call(test_inputs)
+    # Assert by testing outputs for keypoints against constraints. These are
+    # taken from the kernel rather than by calling the layer: call() returns a
+    # list with 'split_outputs', needs an 'is_missing' tensor when no
+    # 'missing_input_value' is set and returns the missing output for a
+    # keypoint which is equal to 'missing_input_value'.
+    outputs = self.keypoints_outputs()
 
     asserts = pwl_calibration_lib.assert_constraints(
         outputs=outputs,
